@@ -966,6 +966,14 @@ def _decode_module(spec, slot):
         count = len(cmid_payload) // 8
         if len(cmid_payload) != 8 * len(cvals):
             problems.append("number of CVAL %d != CMID length %d / 8" % (len(cvals), len(cmid_payload)))
+        for i in range(count):
+            rec = cmid_payload[8 * i: 8 * i + 8]
+            # D "Controller MIDI mappings": 0x03 and 0x06 reserved zero bytes; 0x07 is 0xff if the message type is unset,
+            # 0xc8 otherwise
+            want7 = 0xFF if rec[0] == 0 else 0xC8
+            if rec[3] != 0 or rec[6] != 0 or rec[7] != want7:
+                problems.append("CMID record %d: reserved/marker bytes %02x %02x %02x (documented 00 00 %02x)"
+                                % (i, rec[3], rec[6], rec[7], want7))
         module["cmid"] = [
             list(struct.unpack_from("<BBBxHxx", cmid_payload, 8 * i)) for i in range(count)
         ]
